@@ -61,9 +61,15 @@ impl SubscriptionManager {
             state.create_subscription(info, topic.clone(), self.push_registry.clone(), delegate)?
         };
 
-        topic
-            .attach_subscription(subscription.clone())
+        // Attach in a task of its own: the subscription is already registered, and a caller that
+        // goes away while we wait for the topic must not leave it registered but unattached.
+        let attach = tokio::spawn({
+            let subscription = Arc::clone(&subscription);
+            async move { topic.attach_subscription(subscription).await }
+        });
+        attach
             .await
+            .unwrap_or(Err(AttachSubscriptionError::Closed))
             .map_err(|e| match e {
                 AttachSubscriptionError::Closed => CreateSubscriptionError::Closed,
             })?;
